@@ -367,18 +367,25 @@ def featuresField (reg : Registry) : P (List QFeature × Registry) := do
   clear
   table reg
 
-/-- `pars.Until(byte(':'))` -/
+/-- `pars.Until(byte(':'))` (go-pars `untilByte`): to the first colon, wherever it is, or to the END
+OF THE INPUT.  `genbankContigParser` used it until a4b3f5d (finding K7D, now F38); kept as the reading
+of the primitive (`Gts.C07.steps_until_colon_partial`). -/
 def untilColon : P Bytes := do
   let s ← getS
   match indexOf 58 s.rest with
   | none => fail
   | some i => do advanceN i; pure (s.rest.take i)
 
+/-- the filter `genbankContigParser` hands to `pars.Until`: `b == ':' || b == '\n' || b == '\r'`
+(a4b3f5d: the accession ends at the colon or at the end of the line) -/
+def contigStop (b : UInt8) : Bool := b == 58 || b == 10 || b == 13
+
 def contigField (depth : Nat) (f : Fields) : P (Fields × Bool) := do
   let _ ← fieldName (bs "CONTIG") depth
   lit (bs "join(")
-  let acc ← untilColon
-  advance1
+  let acc ← untilFilter contigStop
+  -- `pars.Byte(':')` (a4b3f5d; it was `pars.Skip(state, 1)`)
+  lit [58]
   let head ← int
   lit (bs "..")
   let tail ← int
